@@ -199,14 +199,15 @@ PROPS["C07"] = dict(
 
 PROPS["C19"] = dict(
     title="Suspend really suspends; resume picks up and completes",
-    module="Cfdp.Props.C19",
+    module="Cfdp.Props.C19c",
     namespace="Cfdp.Loop",
     theorems=["C19_send_quiet", "C19_send_no_timer_fault", "C19_send_permit_ignored", "C19_send_resume",
-              "C19_recv_quiet", "C19_recv_no_timer_fault", "C19_recv_suspend", "C19_recv_resume", "C19_send_run_quiet"],
+              "C19_recv_quiet", "C19_recv_no_timer_fault", "C19_recv_suspend", "C19_recv_resume", "C19_send_run_quiet",
+              "Cfdp.Net.C19_completes_despite_suspensions"],
     engines=["send", "recv", "daemon"],
     design="§6 C19",
     technique="Lean 4 proofs over the sender/receiver models and the task-loop step (gating of the send/timeout branches) + differential correspondence",
-    level_text=("Kernel-checked over the models of both transactions and of one task-loop iteration: in the Suspended state has_pdu_to_send is false and "
+    level_text=("Kernel-checked completion clause: in the two-party model suspend and resume requests at either entity, any number of them at any point, are among the actions of the calm histories of C02_two_party_completes - a suspended receiver still stores what arrives, a resumed sender transmits what it had not yet transmitted - so whatever suspensions happened, once the sender's Metadata, an EOF and data covering the file have been delivered the receiver has finished with NoError / Complete / Retained (C19_completes_despite_suspensions, Props/C19c.lean, with an example history that suspends both sides). Kernel-checked over the models of both transactions and of one task-loop iteration: in the Suspended state has_pdu_to_send is false and "
                 "until_timeout is infinite, so for every event the loop can see (peer PDU, send permit, timer wake-up after any time, report, prompt) "
                 "no PDU of any kind is transmitted (C19_*_quiet), a wake-up declares no fault and changes nothing (C19_*_no_timer_fault), and this holds for a "
                 "whole stretch of events as long as the state stays Suspended (C19_send_run_quiet); suspend pauses all counters; resume makes the "
@@ -567,7 +568,7 @@ PROPS["C02"] = dict(
                 "(C02_finishes_when_complete), and along every history an acknowledged receiver that is still collecting although Metadata and EOF have arrived really misses file data - it never sits on a complete file (C02_never_waits_complete, invariant Waiting, Props/C02w.lean); and when the segment list covers [0, size) of a staging file that agrees with the source (C01's invariant), with the Metadata and a NoError EOF carrying the source's size and checksum, check_finished verifies the checksum, copies the file under the destination name (if the filestore lets it), records NoError / Complete / Retained, tells the user so and queues a Finished PDU saying the same (C02_complete_is_success, Props/C02s.lean; the checksum the receiver computes over the complete staging file is the one C07_eof puts in the EOF: fileChecksum_true, via C14); with a peer that only ever reports the source's true size and checksum the receiver never declares FileSizeError or FileChecksumFailure, along every history of deliveries, timeouts and user operations (C02_size_check_passes, C02_no_integrity_fault, invariant Link, Props/C02i.lean), and in the two-party model that hypothesis is discharged by the real sender's outputs (C02_two_party_no_integrity_fault); every unanswered EOF / Finished / NAK is retransmitted once per timer expiry up to the limit (C17_*_ack_expiry, "
                 "C17_send_eof_rearms, C08_queue_after_eof); duplicates and stragglers after completion change nothing (C04). "
                 "Composition on the receiving side is a theorem (Props/C02c.lean): take any history of an acknowledged receiver in which no timer expires and the user does not "
-                "interfere (PDUs of an un-cancelled sender of the file, transmission opportunities, prompts, report requests, at one clock reading) - any order, any duplicates, "
+                "interfere other than by suspending and resuming (PDUs of an un-cancelled sender of the file, transmission opportunities, prompts, report requests, suspend / resume requests, at one clock reading) - any order, any duplicates, "
                 "whatever was lost before; if by its end the Metadata, an EOF and file data covering every byte have each been delivered at least once, the receiver is in the "
                 "Finished phase with NoError / Complete / Retained (C02_recv_completes: invariant Prog - still collecting and holding everything delivered so far, or finished "
                 "successfully - carried with C01's Good and C02i's Link; the collecting case is closed by C02_never_waits_complete); and when that Finished PDU reaches the "
